@@ -214,6 +214,124 @@ Definition build_env (srt : sorter) (loc home : str) (have_target is_binary sand
   let e2 := if have_target && is_binary then set_env (s "_BINARY") (s "true") e1 else e1 in
   env_vars srt loc home e2.
 
+(* ---- the Command and the Action (src/remote/action.go buildCommand / buildAction, utils.go
+   targetPlatformProperties / convertPlatform; src/core/build_target.go insert / Outputs / AllOutputs /
+   GetTmpOutput / PrefixedLabels) ----
+   Abstractions: non-filegroup, non-remote-file build action of a target in a non-root package (so
+   GetTmpOutput only has its `== PackageName` branch); the command text after core.ReplaceSequences,
+   shellescape.Quote and the map core.StampedBuildEnvironment returns (a function of the input root, through
+   RULE_HASH) are inputs; AddOutput("") panics and is not modelled. *)
+
+(* func (target *BuildTarget) insert(sl []string, s string) []string, after s = strings.TrimPrefix(s, "./") *)
+Fixpoint out_insert (sl : list str) (x : str) : list str :=
+  match sl with
+  | [] => [x]
+  | y :: r => if str_eqb x y then sl else if str_ltb x y then x :: sl else y :: out_insert r x
+  end.
+Definition trim_dot_slash (x : str) : str :=
+  match x with a :: b :: r => if N.eqb a 46 && N.eqb b 47 then r else x | _ => x end.
+Definition add_output (sl : list str) (x : str) : list str := out_insert sl (trim_dot_slash x).
+(* target.outputs after the AddOutput calls, in call order *)
+Definition declared_outputs (calls : list str) : list str := fold_left add_output calls [].
+
+(* target.namedOutputs: a Go map name -> slice kept by insert; here in first-insertion order *)
+Fixpoint named_add (m : list (str * list str)) (name out : str) : list (str * list str) :=
+  match m with
+  | [] => [(name, add_output [] out)]
+  | (k, l) :: r => if str_eqb k name then (k, add_output l out) :: r else (k, l) :: named_add r name out
+  end.
+Definition named_outputs (calls : list (str * str)) : list (str * list str) :=
+  fold_left (fun m c => named_add m (fst c) (snd c)) calls [].
+
+(* Outputs(): copy of target.outputs, then `for _, outputs := range target.namedOutputs { append }` in the
+   map's enumeration order, then sort.Strings *)
+Definition outputs_of (srt : sorter) (outs : list str) (named : list (str * list str)) : list str :=
+  srt _ (fun x => x) (outs ++ concat (map snd named)).
+
+Definition trim_suffix (suf x : str) : str :=
+  if has_prefix (rev suf) (rev x) then firstn (length x - length suf) x else x.
+
+(* GetTmpOutput (non-root package, not a filegroup) and OutputDirectory.Dir *)
+Definition get_tmp (pkg o : str) : str := if str_eqb o pkg then o ++ s ".out" else o.
+Definition od_dir (o : str) : str := trim_suffix (s "/**") o.
+
+(* AllOutputs(): the (sorted) outputs through GetTmpOutput, then the output directories as declared *)
+Definition all_outputs (pkg : str) (outs : list str) (outdirs : list str) : list str :=
+  map (get_tmp pkg) outs ++ map od_dir outdirs.
+
+(* PrefixedLabels("remote-platform-property:") *)
+Definition plat_prefix : str := s "remote-platform-property:".
+Definition prefixed_labels (labels : list str) : list str :=
+  flat_map (fun l => if has_prefix plat_prefix l then [skipn (length plat_prefix) l] else []) labels.
+
+(* strings.SplitN(p, "=", 2) with len(parts) == 2 *)
+Fixpoint split_eq_go (cur : str) (v : str) : option (str * str) :=
+  match v with
+  | [] => None
+  | c :: r => if N.eqb c 61 then Some (rev cur, r) else split_eq_go (c :: cur) r
+  end.
+Definition convert_platform (ps : list str) : list (str * str) :=
+  flat_map (fun p => match split_eq_go [] p with Some kv => [kv] | None => [] end) ps.
+
+(* targetPlatformProperties: label properties in declaration order, then the configured ones; no sort *)
+Definition target_platform (labels cfgplat : list str) : list (str * str) :=
+  match prefixed_labels labels with
+  | [] => convert_platform cfgplat
+  | ls => convert_platform ls ++ convert_platform cfgplat
+  end.
+
+(* process.BashCommand *)
+Definition bash_command (shell command : str) (exit_on_error : bool) : list str :=
+  if exit_on_error then [shell; s "--noprofile"; s "--norc"; s "-e"; s "-u"; s "-o"; s "pipefail"; s "-c"; command]
+  else [shell; s "--noprofile"; s "--norc"; s "-u"; s "-o"; s "pipefail"; s "-c"; command].
+
+(* the prefix buildCommand puts in front of the command: keys of target.Env sorted, then exported *)
+Definition cmd_prefix (srt : sorter) (quote : str -> str) (tenv : env) (single_out : bool) : str :=
+  s "export TMP_DIR=""`pwd`"" && export HOME=$TMP_DIR && "
+  ++ flat_map (fun kv => s "export " ++ fst kv ++ s "=" ++ quote (snd kv) ++ s " && ") (srt _ fst tenv)
+  ++ (if single_out then s "export OUT=""$TMP_DIR/$OUT"" && " else []).
+
+Record cmdmsg := CM { c_args : list str; c_env : env; c_outs : list str; c_plat : list (str * str) }.
+Record actmsg := AM { a_cmd : str; a_root : str; a_timeout : N; a_plat : list (str * str) }.
+
+(* everything buildAction reads from the target ... *)
+Record decl := DC {
+  d_ops : list op;                   (* the insertions uploadInputDir makes, in the order it makes them *)
+  d_outs : list str;                 (* AddOutput calls, in call order *)
+  d_named : list (str * list str);   (* target.namedOutputs, in the map's enumeration order *)
+  d_outdirs : list str;              (* target.OutputDirectories, in declaration order *)
+  d_labels : list str;               (* target.Labels, in declaration order *)
+  d_tenv : env;                      (* target.Env, in the map's enumeration order *)
+  d_env : dirmsg -> env;             (* stampedBuildEnvironment(inputRoot): a map, in enumeration order *)
+  d_pkg : str; d_cmd : str; d_binary : bool; d_sandbox : bool; d_timeout : N }.
+(* ... and from the client / configuration *)
+Record conf := CF { f_shell : str; f_eoe : bool; f_plat : list str; f_loc : str; f_home : str }.
+
+Section Action.
+  Variable H : dirmsg -> str.        (* digest of a Directory *)
+  Variable HC : cmdmsg -> str.       (* digest of a Command *)
+  Variable HA : actmsg -> str.       (* digest of an Action *)
+  Variable srt : sorter.
+  Variable quote : str -> str.       (* shellescape.Quote *)
+  Variable c : conf.
+
+  Definition command_of (d : decl) (root : dirmsg) : cmdmsg :=
+    let outs := outputs_of srt (declared_outputs (d_outs d)) (d_named d) in
+    let text := match d_cmd d with [] => s "true" | t => t end in
+    CM (bash_command (f_shell c) (cmd_prefix srt quote (d_tenv d) (Nat.eqb (length outs) 1) ++ text) (f_eoe c))
+       (build_env srt (f_loc c) (f_home c) true (d_binary d) (d_sandbox d) (d_env d root))
+       (all_outputs (d_pkg d) outs (d_outdirs d))
+       (target_platform (d_labels d) (f_plat c)).
+
+  (* buildAction: &pb.Action{CommandDigest, InputRootDigest, Timeout, Platform} *)
+  Definition action_of (d : decl) : option actmsg :=
+    match build H srt (d_ops d) with
+    | None => None
+    | Some (_, root) => Some (AM (HC (command_of d root)) (H root) (d_timeout d) (target_platform (d_labels d) (f_plat c)))
+    end.
+  Definition action_digest (d : decl) : option str := option_map HA (action_of d).
+End Action.
+
 (* ---- correspondence cases ---- *)
 Definition fnode_eqb (a b : fnode) := str_eqb (fname a) (fname b) && str_eqb (fdig a) (fdig b) && Bool.eqb (fexec a) (fexec b).
 Definition dnode_eqb (a b : dnode) := str_eqb (dname a) (dname b) && option_eqb str_eqb (ddig a) (ddig b).
@@ -230,7 +348,15 @@ Fixpoint table_H (t : list (dirmsg * str)) (m : dirmsg) : str :=
 
 Inductive case :=
 | CBuild (ops : list op) (sent : list (dirmsg * str)) (root : dirmsg)   (* sent: every message put on ch, in order, with its digest *)
-| CEnv (loc home : str) (have_target is_binary sandbox : bool) (e : env) (out : env).
+| CEnv (loc home : str) (have_target is_binary sandbox : bool) (e : env) (out : env)
+(* the real Client.uploadInputs on real BuildTargets: the declared input set (any order), every Directory
+   message found below the root with its digest, and the root *)
+| CRoot (ops : list op) (sent : list (dirmsg * str)) (root : dirmsg)
+(* the real Client.buildCommand: AddOutput calls, named-output map, output directories, labels, configured
+   platform, target.Env with the quoted values, package, command, shell, exit-on-error;
+   observed Arguments, OutputPaths, Platform *)
+| CCmd (outs : list str) (named : list (str * str)) (outdirs labels cfgplat : list str) (tenv : list (str * (str * str)))
+       (pkg cmd shell : str) (eoe : bool) (args outpaths : list str) (plat : list (str * str)).
 
 Definition kv_eqb (a b : str * str) := str_eqb (fst a) (fst b) && str_eqb (snd a) (snd b).
 
@@ -242,4 +368,15 @@ Definition check (c : case) : bool :=
       | None => false
       end
   | CEnv loc home ht ib sb e out => list_eqb kv_eqb (build_env isort loc home ht ib sb e) out
+  | CRoot ops sent root =>
+      match build (table_H sent) isort ops with
+      | Some (_, m) => dirmsg_eqb m root
+      | None => false
+      end
+  | CCmd outs named outdirs labels cfgplat tenv pkg cmd shell eoe args outpaths plat =>
+      let quote := fun v => match find (fun e => str_eqb (fst (snd e)) v) tenv with Some e => snd (snd e) | None => v end in
+      let d := DC [] outs (named_outputs named) outdirs labels (map (fun e => (fst e, fst (snd e))) tenv) (fun _ => [])
+                  pkg cmd false false 0 in
+      let m := command_of isort quote (CF shell eoe cfgplat [] []) d empty_dir in
+      list_eqb str_eqb (c_args m) args && list_eqb str_eqb (c_outs m) outpaths && list_eqb kv_eqb (c_plat m) plat
   end.
